@@ -1958,7 +1958,36 @@ public:
     // REVISIT: not the most precise renaming but it should be okay.
     m_bool_to_lincsts.rename(old_bools, new_bools);
     m_bool_to_refcsts.rename(old_bools, new_bools);
-    m_bool_to_bools = std::move(bool_to_bools_env_t::top());
+    // The Boolean implications are renamed exactly (keys and members):
+    // throwing them away would weaken the value, and callers rename
+    // both operands of an inclusion test (array domains rename the
+    // ghost variables of the cells).
+    if (!old_bools.empty() && !m_bool_to_bools.is_bottom() &&
+        !m_bool_to_bools.is_top()) {
+      auto renamed_var = [&old_bools, &new_bools](const variable_t &v) {
+        for (unsigned i = 0, sz = old_bools.size(); i < sz; ++i) {
+          if (old_bools[i] == v) {
+            return new_bools[i];
+          }
+        }
+        return v;
+      };
+      bool_to_bools_env_t renamed = bool_to_bools_env_t::top();
+      for (auto it = m_bool_to_bools.begin(), et = m_bool_to_bools.end();
+           it != et; ++it) {
+        const bool_set_t &bools = it->second;
+        if (bools.is_bottom() || bools.is_top()) {
+          renamed.set(renamed_var(it->first), bools);
+        } else {
+          bool_set_t renamed_bools = bool_set_t::top();
+          for (auto const &b : bools) {
+            renamed_bools += renamed_var(b);
+          }
+          renamed.set(renamed_var(it->first), renamed_bools);
+        }
+      }
+      m_bool_to_bools = std::move(renamed);
+    }
     // Mark from's variables as possibly modified needed for
     // soundness of m_bool_to_lincsts and m_bool_to_refcsts.
     for (auto const&v: from) {
